@@ -617,17 +617,21 @@ class EnsembleEvaluator:
 
     def _init_samplers(
         self, rng: Generator, plugin_manager: PluginManager
-    ) -> list[Sampler]:
-        samplers: list[Sampler] = []
+    ) -> list[Sampler | None]:
+        # Samplers that do not handle any variables are not created, their
+        # position in the list is filled with `None`:
+        samplers: list[Sampler | None] = []
         for idx, sampler_config in enumerate(self._config.samplers):
             variable_indices = _get_mask(
                 idx, self._config.gradient.samplers, self._config.variables.mask
             )
-            if variable_indices is None or variable_indices.size:
+            if variable_indices is None or variable_indices.any():
                 plugin = plugin_manager.get_plugin(
                     "sampler", method=sampler_config.method
                 )
                 samplers.append(plugin.create(self._config, idx, variable_indices, rng))
+            else:
+                samplers.append(None)
         return samplers
 
 
